@@ -102,7 +102,7 @@ def run(ctx):
         bdecraw.append(ones(BPTC19696.deinterleave_data_bits(cw.copy(), False)))
     rng = random.Random(ctx.seed)
     rand = []
-    for _ in range(300 if ctx.quick else 5000):
+    for _ in range(300 if ctx.quick else 20000):
         kind = rng.random()
         msg = bitarray([rng.getrandbits(1) if kind < 0.8 else (1 if kind < 0.9 else 0) for _ in range(96)])
         cw = BPTC19696.encode(msg)
